@@ -22,9 +22,10 @@ CONSTANTS GLen, MaxDecl, EmitRecords
 
 VARIABLES epending,   \* [EApps -> 0..2]
           gapplied,   \* [GApps -> 0..GLen]
-          decls
+          decls,
+          hollow      \* pending evolutions with MUTATIONS = [] (ordering only, no SQL)
 
-vars == <<epending, gapplied, decls>>
+vars == <<epending, gapplied, decls, hollow>>
 EApps == {1, 2}
 GApps == {3, 4}
 EApplied == 1
@@ -52,6 +53,7 @@ Init == /\ epending \in [EApps -> 0..2]
         /\ \A d \in decls : d[1] = "md" => (d[3] <= gapplied[d[2]] => d[5] <= gapplied[d[4]])
         \* at most one md in each direction (Django rejects circular migration graphs itself)
         /\ Cardinality({ d \in decls : d[1] = "md" }) <= 1
+        /\ hollow \in {{}} \cup { {u} : u \in UNION { PendingEvos(a) : a \in EApps } }
 Next == UNCHANGED vars
 Spec == Init /\ [][Next]_vars
 
@@ -85,6 +87,7 @@ SetToSeq(X) == IF X = {} THEN <<>> ELSE LET x == CHOOSE y \in X : TRUE IN <<x>> 
 Emit == EmitRecords =>
           PrintT(<<"REC", ToJson([epending |-> epending, gapplied |-> gapplied,
                                    decls |-> SetToSeq(decls), units |-> SetToSeq(Units),
+                                   hollow |-> SetToSeq(hollow),
                                    req |-> SetToSeq(Req), unsat |-> Unsatisfiable])>>)
 Constraint == Emit
 (* sanity of the reference itself: chains alone are always satisfiable *)
